@@ -16,7 +16,8 @@ ScNum3 == { Num(w, "little", <<V(FALSE, <<1>>), V(FALSE, <<2, 1>>), V(TRUE, <<3>
 \* character codes: a space newline tab backslash dquote A(hex escape) semicolon squote NUL comma hash
 \* 321 = U+0141, written \u0141: a character beyond 8 bits still emits ONE byte (its low byte)
 \* 200 is written \xc8: a hex escape above 0x7f is still one byte
-Chars == {97, 32, 10, 9, 92, 34, 65, 59, 39, 0, 44, 35, 321, 200}
+\* 120 58 = "x:" - the spelling of a label definition inside a string (the harness then puts a label x in front of the directive)
+Chars == {97, 32, 10, 9, 92, 34, 65, 59, 39, 0, 44, 35, 321, 200, 120, 58}
 Strs(k) == UNION { [1..j -> Chars] : j \in 0..k }
 ScStr(k) == { Str(f, c, t) : f \in {"byte", "cstr", "asciiz", "embedded", "bytesq"}, c \in Strs(k), t \in {0, 3, 255} }
 ScFill == { Fil("fill", n, v, 0) : n \in 0..3, v \in {0, 1, 255, 256, 263, -1, -256} }
